@@ -117,7 +117,7 @@ def step (st : St) (j : Json) : Json × St :=
     let key := match j.getObjVal? "k" with
       | .ok (.str s) => some s
       | _ => none
-    liftKV (update clash (getV j "v") key (getBool j "only_unset") st.cur)
+    liftKV (update2 clash (getV j "v") key (getBool j "only_unset") st.cur)
   | "items" =>
     let b := getBool j "branches"
     outState (.arr ((items b st.cur).map fun kv => Json.arr #[.str kv.1, vToJson kv.2]).toArray) st.cur
